@@ -668,20 +668,33 @@ func (r *Runner) Run(ctx context.Context, sc *Scenario) error {
 
 func (r *Runner) runPar(ctx context.Context, st *Stack, b *Base, op Op) {
 	ids := make([]string, len(op.Ops))
+	byID := map[string]Op{}
+	lazy := map[string]bool{}
 	for i, o := range op.Ops {
 		ids[i] = o.ID
+		byID[o.ID] = o
+	}
+	for _, t := range op.Sched {
+		if t.Site == "start" {
+			lazy[t.Rid] = true
+		}
 	}
 	var wg sync.WaitGroup
+	run := func(o Op) {
+		defer wg.Done()
+		r.runSign(ctx, st, b, o)
+		r.Ctl.Done(o.ID)
+	}
 	if op.Gate {
-		r.Ctl.StartGating(ids)
+		r.Ctl.StartFn = func(rid string) { run(byID[rid]) }
+		r.Ctl.StartGating(ids, lazy)
 	}
 	for _, o := range op.Ops {
 		wg.Add(1)
-		go func(o Op) {
-			defer wg.Done()
-			r.runSign(ctx, st, b, o)
-			r.Ctl.Done(o.ID)
-		}(o)
+		if op.Gate && lazy[o.ID] {
+			continue
+		}
+		go run(o)
 	}
 	if op.Gate {
 		res := r.Ctl.RunSchedule(op.Sched)
@@ -700,7 +713,7 @@ func (r *Runner) runPar(ctx context.Context, st *Stack, b *Base, op Op) {
 	go func() { wg.Wait(); close(done) }()
 	select {
 	case <-done:
-	case <-time.After(60 * time.Second):
+	case <-time.After(30 * time.Second):
 		buf := make([]byte, 1<<22)
 		n := runtime.Stack(buf, true)
 		inLock := strings.Count(string(buf[:n]), "sync.(*Mutex).Lock")
